@@ -352,6 +352,8 @@ def explore(run_one: Callable[[List[int]], Execution], check: Callable[[Executio
         if max_executions is not None and stats.executions >= max_executions:
             capped = bool(stack)
             break
+        if x.livelock:
+            continue  # ran into the step horizon: reported by check(); its tens of thousands of points are not branched from
         pre = x.preemptions_before(start)
         for i in range(start, len(x.points)):
             p = x.points[i]
